@@ -394,8 +394,9 @@ def build_ocaml(drivers=None, timeout=900):
             mods = good
         gen_extract(mods)
     with Lock("ocaml"):
-        srcs = [os.path.join(COQ, "Extract.v")] + [os.path.join(COQ, f) for f in os.listdir(COQ) if f.endswith(".vo")]
-        srcs += [os.path.join(COQ, "gen", f) for f in os.listdir(os.path.join(COQ, "gen")) if f.endswith(".vo")]
+        # the extracted code depends on the models and on what they import; a change in any of those recompiles the
+        # model's .vo, so the models' own .vo files (and the dictionary) are the only files whose age matters
+        srcs = [os.path.join(COQ, "Extract.v"), os.path.join(COQ, "Num.vo")] + [os.path.join(COQ, m + ".vo") for m in mods]
         stamp = os.path.join(OBUILD, ".extracted")
         log = ""
         if newer(srcs, stamp):
